@@ -4,6 +4,7 @@
   Other formats add their theorems in `Relic/Props/C08_*.lean`.
 -/
 import Relic.Proofs.PESign
+import Relic.Proofs.PEFrame
 import Relic.Props.C12
 namespace Relic.Props.C08
 open Relic Relic.PE
@@ -18,17 +19,21 @@ theorem pe_signed_file (f : Bytes) (d : Digest) (sig : Bytes) (ps : List Binpatc
   rw [C12.add_spec M f ps (makePatch_constructible f d sig ps H hm), sem_makePatch f d sig ps H hm]
 
 /-- **pe_digest_ignores_signature (partial).** The stream hashed for the signed file equals the stream
-    hashed for the input, whenever the re-digest succeeds.  (That it *does* succeed is not proved here; it is
-    checked on every generated file by the correspondence run – flag `same-digest` – on model and code.) -/
+    hashed for the input, whenever the re-digest succeeds. -/
 theorem pe_digest_ignores_signature_partial (f : Bytes) (d d' : Digest) (sig : Bytes) (hp : 64 ≤ u32 f 0x3c)
     (e : DigestPE f = .ok d) (hcs : d.certStart < 2 ^ 32) (hsig : 8 + ceil8 sig.length < 2 ^ 32)
     (e' : DigestPE (signedBytes f d sig) = .ok d') : d'.hashed = d.hashed :=
   (redigest_same_stream f d d' sig hp e hcs hsig e').1
 
-/-- the full statement (success of the re-digest included) – not yet proved -/
-def pe_digest_ignores_signature_full : Prop :=
-  ∀ (f : Bytes) (d : Digest) (sig : Bytes), 64 ≤ u32 f 0x3c → DigestPE f = .ok d → d.certStart < 2 ^ 32 →
-    8 + ceil8 sig.length < 2 ^ 32 → ∃ d', DigestPE (signedBytes f d sig) = .ok d' ∧ d'.hashed = d.hashed
+/-- **pe_digest_ignores_signature.** The full statement, success of the re-digest included: for every file
+    `DigestPE` accepts (with `e_lfanew ≥ 64`) and every signature blob `MakePatch` accepts, digesting the signed
+    file succeeds and feeds the image hash exactly the stream hashed for the input.  (Success rests on the frame
+    property of the header parser, `Relic.PE.readHeaders_frame`.) -/
+theorem pe_digest_ignores_signature (f : Bytes) (d : Digest) (sig : Bytes) (hp : 64 ≤ u32 f 0x3c)
+    (e : DigestPE f = .ok d) (hcs : d.certStart < 2 ^ 32) (hsig : 8 + ceil8 sig.length < 2 ^ 32) :
+    ∃ d', DigestPE (signedBytes f d sig) = .ok d' ∧ d'.hashed = d.hashed := by
+  obtain ⟨d', e'⟩ := DigestPE_signed_ok f d sig hp e hcs hsig
+  exact ⟨d', e', (redigest_same_stream f d d' sig hp e hcs hsig e').1⟩
 
 /-- **pe_resign_replaces.** Signing relic's own output again yields exactly what signing the original
     with the new signature yields: the earlier signature is gone, nothing else moved. -/
@@ -103,6 +108,39 @@ theorem pe_history (f : Bytes) (d : Digest) (hp : 64 ≤ u32 f 0x3c) (e : Digest
       have : (signRound cur s >>= fun b => List.foldlM signRound b rest) = Res.diverge := by rw [hr]; rfl
       rw [this] at hg; contradiction
 
+/-- one more round on relic's own output always succeeds and replaces the signature -/
+theorem signRound_signed (f : Bytes) (d : Digest) (last s : Bytes) (hp : 64 ≤ u32 f 0x3c) (e : DigestPE f = .ok d)
+    (hcs : d.certStart < 2 ^ 32) (hl : 8 + ceil8 last.length < 2 ^ 32) :
+    signRound (signedBytes f d last) s = .ok (signedBytes f d s) := by
+  obtain ⟨d', e'⟩ := DigestPE_signed_ok f d last hp e hcs hl
+  obtain ⟨_, _, c', _, _⟩ := redigest_same_stream f d d' last hp e hcs hl e'
+  have rr := resign_replaces f d d' last s hp e hcs hl e'
+  have hmk : ∃ ps, makePatch d' s = .ok ps := by
+    unfold makePatch
+    rw [if_neg (by omega)]
+    exact ⟨_, rfl⟩
+  obtain ⟨ps, hmk⟩ := hmk
+  unfold signRound
+  rw [e']
+  simp only [hmk, rr]
+
+/-- **pe_history_total.** Every history of signing rounds `s₁ … sₙ` applied to relic's own output *succeeds*, and
+    the artifact after the last round is the original signed once with the last signature. -/
+theorem pe_history_total (f : Bytes) (d : Digest) (hp : 64 ≤ u32 f 0x3c) (e : DigestPE f = .ok d)
+    (hcs : d.certStart < 2 ^ 32) :
+    ∀ (sigs : List Bytes) (last : Bytes), 8 + ceil8 last.length < 2 ^ 32 →
+      (∀ s ∈ sigs, 8 + ceil8 s.length < 2 ^ 32) →
+      sigs.foldlM signRound (signedBytes f d last) = .ok (signedBytes f d ((last :: sigs).getLast (by simp))) := by
+  intro sigs
+  induction sigs with
+  | nil => intro last _ _; rfl
+  | cons s rest ih =>
+    intro last hl hs
+    rw [List.foldlM_cons, signRound_signed f d last s hp e hcs hl]
+    have := ih s (hs s (by simp)) (fun x hx => hs x (by simp [hx]))
+    rw [List.getLast_cons (by simp)]
+    exact this
+
 /-! ### non-vacuity -/
 
 /-- a minimal PE32 image: DOS header (`e_lfanew = 64`), COFF header without sections, 224-byte optional
@@ -126,5 +164,14 @@ def minimalPE_ok : Bool :=
 
 set_option maxRecDepth 100000 in
 example : 64 ≤ u32 minimalPE 0x3c ∧ minimalPE_ok = true := by decide
+
+/-- the hypotheses of `pe_digest_ignores_signature` / `pe_history_total` hold for `minimalPE` and a 3-byte blob -/
+def minimalPE_hyps : Bool :=
+  match DigestPE minimalPE with
+  | .ok d => decide (d.certStart < 2 ^ 32) && decide (8 + ceil8 [9, 9, 9].length < 2 ^ 32)
+  | _ => false
+
+set_option maxRecDepth 100000 in
+example : minimalPE_hyps = true := by decide
 
 end Relic.Props.C08
